@@ -384,51 +384,53 @@ func genC13w(g *Gen) {
 	// (W2) ranges crossing the bit offsets 2^8, 2^15, 2^16, 2^20: 1-bits just below / at / above the
 	// offset T and far away from it, scans that start before T and hit after it (and the reverse)
 	type cross struct{ t, count int }
-	for _, c := range []cross{{8, g.N(12, 60)}, {15, g.N(4, 30)}, {16, g.N(4, 30)}, {20, g.N(2, 12)}} {
+	for _, c := range []cross{{8, g.N(12, 60)}, {15, g.N(5, 30)}, {16, g.N(5, 30)}, {20, g.N(4, 16)}} {
 		T := 1 << uint(c.t)
 		for k := 0; k < c.count; k++ {
-			nw := T/64 + g.R.Pick(1, 2, 3, 40)
+			nw := T/64 + g.R.Pick(2, 3, 40)
 			bm := make([]uint64, nw)
-			set := func(p int) {
-				if 0 <= p && p < 64*nw {
-					bm[p>>6] |= 1 << (uint(p) & 63)
-				}
-			}
+			n := 64 * nw
 			var marks []int
+			set := func(p int) {
+				bm[p>>6] |= 1 << (uint(p) & 63)
+				marks = append(marks, p)
+			}
 			far := g.R.Pick(1, 2, 3, 5, 100, 1000, 5000)
 			lo := T - 64*far - g.R.Intn(64) // a 1-bit far below T
 			if lo < 0 {
 				lo = g.R.Intn(T)
 			}
-			hi := T + g.R.Pick(0, 0, 1, 63, 64, 65, 64*nw-T-1) // a 1-bit at or above T
+			hi := T + g.R.Pick(0, 0, 1, 62, 63)         // a 1-bit in the word that starts at T
+			hi2 := T + 64 + g.R.Pick(0, 1, 63, n-T-65) // a 1-bit in a later word
 			if k%4 != 3 {
 				set(lo)
-				marks = append(marks, lo)
 			}
 			if k%4 != 2 {
 				set(hi)
-				marks = append(marks, hi)
+			}
+			if k%3 != 1 {
+				set(hi2)
 			}
 			if k%5 == 0 {
 				set(T - 1)
-				marks = append(marks, T-1)
-			}
-			if len(marks) == 0 {
-				set(T)
-				marks = append(marks, T)
 			}
 			w := c13Rle(bm)
-			n := 64 * nw
-			ext := []int{T, lo, hi}
-			for q := 0; q < 8; q++ {
+			ext := []int{T, lo, hi, hi2}
+			for q := 0; q < 10; q++ {
 				i, e := c13wRange(g, bm, marks, ext)
 				switch q {
-				case 0:
+				case 0: // NextOne: from far below T to whatever comes at or after it
 					i, e = lo+1, n
-				case 1:
-					i, e = 0, hi
-				case 2:
+				case 1: // PrevOne: the last word of the range starts at T
+					i, e = 0, hi+1
+				case 2: // NextOne: the scan starts in the word(s) just below T
+					i, e = T-1-64*g.R.Range(0, 3), n
+				case 3: // PrevOne: the last word of the range lies beyond T, the scan comes down across T
+					i, e = g.R.Pick(0, lo, lo+1), hi2+g.R.Pick(0, 1)
+				case 4:
 					i, e = g.R.Intn(T), T+g.R.Pick(0, 1, 64, n-T)
+				case 5:
+					i, e = T+g.R.Pick(0, 1, 63, 64), n
 				}
 				if i < 0 {
 					i = 0
